@@ -40,6 +40,34 @@ type c16Ent struct {
 type c16Def struct {
 	name string
 	key  int // 0 = workbook scope
+	data string
+}
+
+// c16RewriteRef is the harness's own reading of "SetSheetName renames the references to the sheet":
+// the text is cut at ',' ':' '!' ; a component that is the old name, bare or in single quotes, is
+// replaced by the new name in the same spelling; every other component is byte-identical.
+func c16RewriteRef(data, from, to string) string {
+	var out []byte
+	start := 0
+	flush := func(end int) {
+		comp := data[start:end]
+		switch {
+		case comp == from:
+			comp = to
+		case len(comp) >= 2 && comp[0] == '\'' && comp[len(comp)-1] == '\'' && comp[1:len(comp)-1] == from:
+			comp = "'" + to + "'"
+		}
+		out = append(out, comp...)
+	}
+	for i := 0; i < len(data); i++ {
+		if c := data[i]; c == ',' || c == ':' || c == '!' {
+			flush(i)
+			out = append(out, c)
+			start = i + 1
+		}
+	}
+	flush(len(data))
+	return string(out)
 }
 
 type c16Book struct {
@@ -126,7 +154,9 @@ func c16WellFormed(w []string) bool {
 		return true
 	case "ungrp", "save":
 		return n == 1
-	case "defn", "deln":
+	case "defn":
+		return (n == 3 || n == 4 && c16IsHex(w[3])) && c16IsInt(w[1], false) && c16IsHex(w[2])
+	case "deln":
 		return n == 3 && c16IsInt(w[1], false) && c16IsHex(w[2])
 	case "setc":
 		return n == 3 && c16IsHex(w[1]) && c16IsInt(w[2], false)
@@ -270,6 +300,9 @@ func (b *c16Book) apply(w []string) (ok bool, idx int) {
 				b.ents[i].name = t
 			}
 		}
+		for i := range b.defs {
+			b.defs[i].data = c16RewriteRef(b.defs[i].data, s, t)
+		}
 		return true, 0
 	case "vis":
 		n := unhx(w[1])
@@ -329,6 +362,13 @@ func (b *c16Book) apply(w []string) (ok bool, idx int) {
 		// (case-insensitive); the same name twice in one scope is a duplicate
 		name := "dn_" + w[1]
 		scope := unhx(w[2])
+		data := "1/2"
+		if len(w) > 3 {
+			data = unhx(w[3])
+		}
+		if data == "" {
+			return false, 0
+		}
 		key := 0
 		if scope != "" && scope != "Workbook" {
 			if !c16Valid(scope) {
@@ -345,7 +385,7 @@ func (b *c16Book) apply(w []string) (ok bool, idx int) {
 				return false, 0
 			}
 		}
-		b.defs = append(b.defs, c16Def{name, key})
+		b.defs = append(b.defs, c16Def{name, key, data})
 		return true, 0
 	case "deln":
 		name := "dn_" + w[1]
@@ -409,6 +449,14 @@ func (b *c16Book) defObs() string {
 		xs = append(xs, hx(d.name)+":"+sc)
 	}
 	return "N=" + strings.Join(xs, ";")
+}
+
+func (b *c16Book) textObs() string {
+	var xs []string
+	for _, d := range b.defs {
+		xs = append(xs, hx(d.data))
+	}
+	return strings.Join(xs, ";")
 }
 
 func c16b(v bool) string {
@@ -555,7 +603,11 @@ func c16Exec(f *xl.File, w []string) (res string) {
 	case "ungrp":
 		return e(f.UngroupSheets())
 	case "defn":
-		return e(f.SetDefinedName(&xl.DefinedName{Name: "dn_" + w[1], RefersTo: "1/2", Scope: unhx(w[2])}))
+		rt := "1/2"
+		if len(w) > 3 {
+			rt = unhx(w[3])
+		}
+		return e(f.SetDefinedName(&xl.DefinedName{Name: "dn_" + w[1], RefersTo: rt, Scope: unhx(w[2])}))
 	case "deln":
 		return e(f.DeleteDefinedName(&xl.DefinedName{Name: "dn_" + w[1], Scope: unhx(w[2])}))
 	case "setc":
@@ -881,6 +933,32 @@ func (g *c16Gen) idx() int {
 	return g.r.Pick2([]int{0, n - 1, g.book.active, g.r.Intn(n)})
 }
 
+// refersTo draws a refers-to text: references to existing / deleted / fresh sheets, bare or quoted,
+// names that contain the separators, ranges and lists.
+func (g *c16Gen) refersTo() string {
+	if g.r.Chance(15) {
+		return g.r.Pick([]string{"1/2", "$A$1", "TRUE", "a'b", "''", "x,y", "A1:B2"})
+	}
+	n := 1 + g.r.Intn(3)
+	var parts []string
+	for i := 0; i < n; i++ {
+		sh := g.anyName()
+		if sh == "" {
+			sh = "Sheet1"
+		}
+		if g.r.Chance(15) {
+			sh = sh + "x"
+		}
+		q := g.r.Bool()
+		ref := c16Quote(sh, q) + "!" + g.r.Pick([]string{"$A$1", "A1", "$A:$A", "$1:$1", "C3"})
+		if g.r.Chance(30) {
+			ref += ":" + c16Quote(sh, q) + "!" + g.r.Pick([]string{"$B$2", "D4"})
+		}
+		parts = append(parts, ref)
+	}
+	return strings.Join(parts, ",")
+}
+
 func (g *c16Gen) next() string {
 	n := len(g.book.ents)
 	k := g.r.Intn(100)
@@ -938,7 +1016,7 @@ func (g *c16Gen) next() string {
 		if g.r.Chance(25) {
 			return fmt.Sprintf("deln %d %s", g.r.Intn(4), hx(sc))
 		}
-		return fmt.Sprintf("defn %d %s", g.r.Intn(4), hx(sc))
+		return fmt.Sprintf("defn %d %s %s", g.r.Intn(4), hx(sc), hx(g.refersTo()))
 	case k < 99:
 		return fmt.Sprintf("setc %s %d", hx(g.anyName()), 1+g.r.Intn(999))
 	}
@@ -954,6 +1032,11 @@ var c16Witnesses = [][]string{
 	{"reset", "new 42", "vis 42 0 0", "del 536865657431", "new 43", "del 536865657431"},
 	{"reset", "new 41", "new 42", "new 43", "defn 0 41", "defn 1 43", "defn 2 536865657431", "move 43 41", "move 536865657431 43", "move 41 536865657431", "del 42", "save"},
 	{"reset", "new 576f726b626f6f6b", "defn 0 576f726b626f6f6b", "defn 0 -", "defn 1 6e6f73756368", "new 61", "defn 2 41", "defn 2 61", "defn 2 -", "deln 2 41", "deln 2 41", "deln 0 576f726b626f6f6b", "deln 7 -", "deln 2 6e6f73756368", "defn 2 61", "del 61", "defn 2 61", "deln 2 -", "deln 2 -"},
+	// refers-to text under SetSheetName: bare and quoted references, another quoted sheet, a longer name, no-op rename of an absent sheet
+	{"reset", "new 782e79", "new 6d79207368656574", "defn 0 - 27782e7927212441243a24422432", "defn 1 782e79 782e7921412c276d79207368656574272124412431", "defn 2 - 782e797a214333",
+		"ren 782e79 615f6e", "ren 6e6f6e65 6f74686572", "ren 6d79207368656574 6d79", "del 6d79", "ren 615f6e 782e79"},
+	// OPEN FINDING defs-text:lone-quote: the text ' becomes '' on any rename
+	{"reset", "new 61", "defn 3 - 27", "ren 61 62"},
 	// the active last sheet is deleted, then a sheet is created: bookViews.activeTab must stay inside the list
 	{"reset", "new 42", "act 1", "del 42", "new 43", "act 1", "del 43", "del 536865657431", "new 44", "new 45", "act 2", "del 45", "del 44"},
 	{"reset", "ren 536865657431 7368656574310a", "ren 536865657431 736865657431", "ren 736865657431 534845455431", "new 736865657431"},
@@ -1060,6 +1143,24 @@ func (s *c16Session) line(op string) {
 	if o := s.book.defObs(); o != defs {
 		s.fails++
 		r.Fail("defs:"+w[0], fmt.Sprintf("after %s the defined-name scopes are %s, expected %s", op, defs, o), ln, replay)
+	}
+	{
+		var xs []string
+		for _, dn := range s.f.GetDefinedName() {
+			xs = append(xs, hx(dn.RefersTo))
+		}
+		if got, want := strings.Join(xs, ";"), s.book.textObs(); got != want {
+			s.fails++
+			sig := "defs-text:" + w[0]
+			for _, d := range s.book.defs {
+				for _, comp := range strings.FieldsFunc(d.data, func(c rune) bool { return c == ',' || c == ':' || c == '!' }) {
+					if comp == "'" {
+						sig = "defs-text:lone-quote" // a component that is a single apostrophe
+					}
+				}
+			}
+			r.Fail(sig, fmt.Sprintf("after %s the defined names refer to %s, expected %s (hex; only references to the renamed sheet may change)", op, got, want), ln, replay)
+		}
 	}
 	for _, b := range c16Invariants(s.f, &d) {
 		s.fails++
